@@ -17,7 +17,7 @@ _CURVE = {"secp256r1": "P256", "secp384r1": "P384", "secp521r1": "P521"}
 def _kat(alg, f, t, ok, **kw):
     e = dict(ev="verify", alg=alg, curve="", hash="", mgf="", enc="", saltLen=0, variant="NO_PREFIX", id="00000000",
              route="wycheproof", kind="kat:%s#%d" % (f, t["tcId"]), pk="", e="", msg=t["msg"], sig=t["sig"], ok=ok,
-             panic=False)
+             panic=False, inIntact=True)
     e.update(kw)
     return e
 
@@ -70,6 +70,10 @@ def corrupt(ev, rng):
     """Negative control: flip Tink's recorded verdict, or damage a signature that was recorded as accepted /
     as produced by Tink (the reference must notice that the bytes no longer verify)."""
     ev = dict(ev)
+    if ev["ev"] in ("sign", "verify") and ev.get("inIntact") and not ev["panic"] and rng.random() < 0.03:
+        ev["inIntact"] = False      # "the call wrote into the caller's frame"
+        ev["_corrupted"] = "inIntact"
+        return ev
     damage = (ev["ev"] == "sign" and ev["sig"] and not ev["err"]) or \
              (ev["ev"] == "verify" and ev["ok"] and not ev["panic"] and rng.random() < 0.7)
     if damage:
@@ -106,6 +110,8 @@ def signature_of(e, bad):
     params = "/".join(str(x) for x in (e.get("curve"), e.get("hash"), e.get("enc")) if x)
     if e.get("alg") == "RSA_PSS":
         params += "/salt%s" % e.get("saltLen")
+    if bad[0].startswith("Sign/Verify wrote into the caller's buffers"):   # independent of the input class
+        return "%s/%s/%s/%s %s wrote into the caller's buffers" % (e.get("route"), e.get("alg"), params, e.get("variant"), e["ev"])
     return "%s/%s/%s/%s %s %s:%s %s" % (e.get("route"), e.get("alg"), params, e.get("variant"), e["ev"],
                                        e.get("origin", ""), kind_class(e.get("kind", "")), bad[0])
 
@@ -160,7 +166,10 @@ def run(ctx):
         "mutation set (message edits, signature bit flips, truncations/extensions, prefix edits, other key, other message, r/s "
         "values 0,1,n-1,n,r+n,n-s, swapped encodings, ~45 DER re-encodings, P1363 length edits, Ed25519 S+kL, RSA s+n / n-s / "
         "leading zero, malformed EMSA-PKCS1/EMSA-PSS encodings signed with the real private exponent, other hash / MGF / salt "
-        "length / variant / scheme); for ECDSA/DER additionally every re-encoding shape of lib/DERShapes.tla with <= 2 deviations "
+        "length / variant / scheme); caller-buffer discipline on every call: message and signature are sub-slices of reused "
+        "driver-owned frames (live tail, sentinel spare capacity, guards) that must be unchanged after the call, incl. signing/"
+        "verifying a prefix of a live buffer in place and then the enclosing buffer; signatures returned by Sign must survive "
+        "later Sign calls; for ECDSA/DER additionally every re-encoding shape of lib/DERShapes.tla with <= 2 deviations "
         "(thorough: the full 75k product per curve) generated by TLC from a reference signature; plus the (key, message, "
         "signature) triples of the Wycheproof files as further inputs (expected results unused); every event judged by TLC "
         "against TinkSig.tla. MC_DER: exhaustive check of the strict DER parser against the encoder on shapes x boundary values")
